@@ -77,6 +77,9 @@ type Branch struct {
 	Pad    string // white space after the header, before the line break
 	Cond   string // bool fragment ("" for else)
 	Kids   []*Node
+	// KSwitch: Chain[0] is the `switch n0` line, the further branches are its clauses
+	CaseVals []int // `case 1, 2:`
+	Default  bool  // `default:`
 }
 
 type Node struct {
@@ -455,7 +458,31 @@ func (p *Printer) node(n *Node, indent int) {
 		}
 		p.frag("script", n.Expr)
 		p.w("\n")
-	case KIf, KFor, KSwitch:
+	case KSwitch:
+		// `- switch n0` (with or without its brace), the clauses one level deeper, their content two levels deeper
+		p.feat("ctl.switch")
+		h := n.Chain[0].Header
+		if n.Chain[0].Braces {
+			p.feat("ctl.braces")
+			h += " {"
+		}
+		p.w(tabs + "- ")
+		p.frag("silent", h)
+		p.w("\n")
+		for _, b := range n.Chain[1:] {
+			p.w(tabs + "\t- ")
+			p.frag("silent", b.Header)
+			p.w("\n")
+			for _, k := range b.Kids {
+				p.node(k, indent+2)
+			}
+		}
+		if n.Chain[0].Braces {
+			p.w(tabs + "- ")
+			p.frag("silent", "}")
+			p.w("\n")
+		}
+	case KIf, KFor:
 		for _, b := range n.Chain {
 			p.feat("ctl." + strings.Fields(b.Header)[0])
 			p.w(tabs + "- ")
